@@ -1,8 +1,58 @@
-import Magog.Model.Eval
-import Magog.Model.Time
+import Magog.Lemmas.RowsIndep
+import Magog.Lemmas.PvWitness
 
-/-! Property C14 — theorems (see DESIGN §5). -/
+/-! Property C14 — stale buffers: what earlier searches left in the PV table (`bestLineAtDepth`, kept across
+    `go` commands) does not influence a search.
+
+`Model.iterDeep` takes the table `rows` and the length `len0` of the row-0 slice header as left behind by the
+previous search. `s.out` lists the output events most recent first. -/
 
 namespace Magog.Props.C14
+open Magog Magog.Model
+
+/-- **The output of a search does not depend on the contents of the PV table it starts with**, nor on the stale
+    length of the row-0 header: a run on a table `rows'` of the same shape (same number of rows, same row sizes;
+    arbitrary contents) with an arbitrary `len0'` succeeds as well and prints exactly the same events; moreover
+    the final states agree in every component except the table itself (same killer table, node count, stored best
+    line, consultation count, …).
+
+    For every oracle `env`, killer table, depth limit. Hypotheses as for `C10_pv_legal`: `sortFn` only permutes;
+    `G d` is a family of position sets closed under generated legal moves containing the root at depth 0; static and
+    terminal scores on `G d` are strictly between `−∞` and `+∞` for the depths at which the table has a row `d + 1`
+    (`EvalFinite`). Without the last hypothesis the statement is false: a depth-1 node whose static evaluation is
+    `≤ −∞` returns `α = −∞` without writing row 1, the root sees `+∞ > α` and copies — and prints — the stale row. -/
+theorem C14_rows_indep {env : Env} {G : Nat → Position → Prop} {qfuel : Nat} {p : Position} {maxDepth : Nat}
+    {killers : Killers} {rows rows' : Array (Array Move)} {len0 len0' : Nat} {s : SS}
+    (hsz : rows.size = rows'.size) (hrow : ∀ i : Nat, (rows[i]?).map (·.size) = (rows'[i]?).map (·.size))
+    (h : iterDeep env qfuel p maxDepth killers rows len0 = .ok s)
+    (hsort : Magog.Lemmas.AlphaBeta.PermSort env) (hp : G 0 p) (hcl : GenClosed G)
+    (hfin : EvalFinite env G rows.size) :
+    ∃ s', iterDeep env qfuel p maxDepth killers rows' len0' = .ok s' ∧ s'.out = s.out ∧
+      s' = { s with rows := s'.rows } := by
+  have H : PvHyps env G rows.size := ⟨PvWitness.sortSound_of_perm hsort, hcl, hfin⟩
+  obtain ⟨rw', h'⟩ := iterDeep_sim (len0' := len0') H hp h hsz hrow
+  exact ⟨s.setRows rw', h', rfl, rfl⟩
+
+open SearchExamples PvWitness in
+/-- non-vacuity: Ka1 vs Kh8, `go depth 2`, once on a fresh 4-row table with header length 4 and once on a table of
+    the same shape filled with junk moves and header length 3 -/
+example : ∃ s, iterDeep quietEnv 1 kkPos 2 Killers.empty (newRows 4) 4 = .ok s ∧
+    (newRows 4).size = junkRows.size ∧
+    (∀ i : Nat, ((newRows 4)[i]?).map (·.size) = (junkRows[i]?).map (·.size)) ∧
+    Magog.Lemmas.AlphaBeta.PermSort quietEnv ∧ Reach kkPos 2 0 kkPos ∧ GenClosed (Reach kkPos 2) ∧
+    EvalFinite quietEnv (Reach kkPos 2) (newRows 4).size ∧
+    ∃ s', iterDeep quietEnv 1 kkPos 2 Killers.empty junkRows 3 = .ok s' ∧ s'.out = s.out := by
+  obtain ⟨s, _, _, _, _, _, _, hs, _, _⟩ := hasPv2_elim pvRun_ok
+  obtain ⟨s', hs', ho, _⟩ := C14_rows_indep (len0' := 3) junkRows_shape.1 junkRows_shape.2 hs quietEnv_perm
+    (reach_root _ _) (reach_closed _ _) kk_evalFinite
+  exact ⟨s, hs, junkRows_shape.1, junkRows_shape.2, quietEnv_perm, reach_root _ _, reach_closed _ _,
+    kk_evalFinite, s', hs', ho⟩
+
+open SearchExamples PvWitness in
+/-- sharpness: the hypothesis `EvalFinite` cannot be dropped. Under `hugeEnv` (a blend that makes one static
+    evaluation infinite) the same search on the fresh table and on the junk table prints different lines. -/
+example : ∃ s s', iterDeep hugeEnv 1 kkPos 1 Killers.empty (newRows 4) 4 = .ok s ∧
+    iterDeep hugeEnv 1 kkPos 1 Killers.empty junkRows 3 = .ok s' ∧ s.out ≠ s'.out :=
+  outsDiffer_elim hugeRun_differ
 
 end Magog.Props.C14
